@@ -123,7 +123,8 @@ let gen_history ?(ka = 0) (idx : int) (prof : cprofile) (oc : out_channel) =
     | hs ->
       let (_, (route, _)) = pick hs in
       let name = List.map (fun l -> if l = [nn 43] then bs "x" else if l = [nn 35] then bs "y/z" else l) route in
-      let topic = join name in
+      (* now and then a topic one level deeper than the filter: it matches only through a '#' *)
+      let topic = if rnd 6 = 0 then join (name @ [bs "zz"]) else join name in
       let qos = pickw [ (3, 0); (3, 1); (4, 2) ] in
       let mid = 1 + rnd 6 in
       let (tit, tid) =
